@@ -1,9 +1,29 @@
 import Tuc.Model.Args
 import Tuc.Props.C18
 import Tuc.Props.C06
+import Tuc.Props.C02
+import Tuc.Props.C07
+import Tuc.Lemmas.Total
 /-!
 # C12 — every invocation terminates with status 0 or 1
-(first theorems; the per-engine panic-freedom results are being assembled)
+
+In the model every Rust site that can panic (`[]`, slicing, `unwrap`, `expect`) is a checked
+operation that yields `Status.panic`, and a loop whose progress depends on a precondition takes
+fuel and yields `Status.hang`.  The property is therefore the *theorem* that these two outcomes
+are unreachable from anything the command line can build.
+
+* `parse_total`                     — the bounds parser never panics;
+* `parsed_nonzero`, `parsed_fromVec` — what it accepts has non-zero indexes and went through `fromVec`;
+* per engine (`Tuc.Lemmas.Total` has the proofs in the form `Run.Safe`, i.e. status `ok ∨ fail`):
+  `cutStrCore_no_panic`, `readAndCutStr_no_panic` (general engine: every delimiter — the empty
+  one included —, every flag; a regex only has to honour the contract of `find_iter`,
+  `RegexBag.OK`), `charsBag_ok` (the `-c` matcher honours it, also on text that is not UTF-8),
+  `readAndCutFast_no_panic`, `readAndCutBytes_no_panic`, `cutLinesForwardOnly_no_panic`,
+  `readAndCutLines_no_panic`, `cutBytesStream_no_panic`;
+* `dispatch_no_panic`, `mainModel_total` — put together, with write faults;
+* `unpack_length_le`, `complement_length_le`, `unpackBof_length_le` — the work does not grow with
+  the numeric value of an index;
+* `trimStartFuel_fuel` (+ `utf8CharsFuel_fuel` in C07) — fuelled loops never run out of fuel.
 -/
 namespace Tuc
 
@@ -11,5 +31,461 @@ namespace Tuc
     `From<Vec<BoundOrFiller>>` is unreachable) -/
 theorem parse_total (s : List Char) : boundsListOfString s ≠ .panic :=
   boundsListOfString_never_panics s
+
+/-! ## what the parser accepts -/
+
+/-- the bound is the value of `UserBounds::from_str` on some text -/
+def Parsed (b : UserBounds) : Prop := ∃ s, parseUserBounds s = some b
+
+def AllParsed (l : List BoF) : Prop := ∀ b, BoF.bound b ∈ l → Parsed b
+
+theorem parseAll_parsed : ∀ (l : List (List Char)) (bs : List UserBounds), parseAll l = some bs →
+    ∀ b ∈ bs, Parsed b
+  | [], bs, h => by
+    simp only [parseAll, Option.some.injEq] at h
+    subst h
+    intro b hb; simp at hb
+  | s :: t, bs, h => by
+    unfold parseAll at h
+    split at h
+    · rename_i b0 bs0 hb0 hbs0
+      simp only [Option.some.injEq] at h
+      subst h
+      intro b hb
+      simp only [List.mem_cons] at hb
+      rcases hb with rfl | hb
+      · exact ⟨s, hb0⟩
+      · exact parseAll_parsed t bs0 hbs0 b hb
+    · simp at h
+
+theorem pushFiller_parsed (st : ScanSt) (h : AllParsed st.bof) : AllParsed st.pushFiller := by
+  unfold ScanSt.pushFiller
+  split
+  · exact h
+  · intro b hb
+    simp only [List.mem_cons, reduceCtorEq, false_or] at hb
+    exact h b hb
+
+theorem scanStep_parsed (w0 : Char) (st st' : ScanSt) (h : AllParsed st.bof)
+    (hs : scanStep w0 st = some st') : AllParsed st'.bof := by
+  unfold scanStep at hs
+  split at hs
+  · simp at hs
+  · split at hs
+    · split at hs
+      · simp at hs
+      · simp only [Option.some.injEq] at hs
+        subst hs
+        exact pushFiller_parsed st h
+    · split at hs
+      · split at hs
+        · simp at hs
+        · rename_i bs hbs
+          simp only [Option.some.injEq] at hs
+          subst hs
+          intro b hb
+          simp only [List.mem_append, List.mem_reverse, List.mem_map, BoF.bound.injEq,
+            exists_eq_right] at hb
+          rcases hb with hb | hb
+          · exact parseAll_parsed _ bs hbs b hb
+          · exact h b hb
+      · simp only [Option.some.injEq] at hs
+        subst hs
+        exact h
+
+theorem scanEnd_parsed (st : ScanSt) (l : List BoF) (h : AllParsed st.bof)
+    (hs : scanEnd st = some l) : AllParsed l := by
+  unfold scanEnd at hs
+  split at hs
+  · simp at hs
+  · simp only [Option.some.injEq] at hs
+    subst hs
+    intro b hb
+    exact pushFiller_parsed st h b (by simpa using hb)
+
+theorem scan_parsed (s : List Char) (st : ScanSt) (l : List BoF) (h : AllParsed st.bof)
+    (hs : scan s st = some l) : AllParsed l := by
+  fun_induction scan s st with
+  | case1 st => exact scanEnd_parsed st l h hs
+  | case2 w0 st hst => simp at hs
+  | case3 w0 st st' hst => exact scanEnd_parsed st' l (scanStep_parsed _ _ _ h hst) hs
+  | case4 w0 w1 rest st hw ih => exact ih h hs
+  | case5 w0 w1 rest st hw hst => simp at hs
+  | case6 w0 w1 rest st hw st' hst ih => exact ih (scanStep_parsed _ _ _ h hst) hs
+
+theorem parseBoundsList_parsed (s : List Char) (l : List BoF) (h : parseBoundsList s = some l) :
+    AllParsed l := by
+  unfold parseBoundsList at h
+  split at h
+  · simp only [Option.some.injEq] at h; subst h; intro b hb; simp at hb
+  · split at h
+    · exact scan_parsed s _ l (by intro b hb; simp at hb) h
+    · simp only [Option.map_eq_some_iff] at h
+      obtain ⟨bs, hbs, rfl⟩ := h
+      intro b hb
+      simp only [List.mem_map, BoF.bound.injEq, exists_eq_right] at hb
+      exact parseAll_parsed _ bs hbs b hb
+
+/-- whatever `-f`/`-c`/`-b`/`-l` accept went through `From<Vec<BoundOrFiller>>` … -/
+theorem parsed_fromVec (f : List Char) (u : UserBoundsList) (h : boundsListOfString f = .ok u) :
+    ∃ l0, parseBoundsList f = some l0 ∧ fromVec l0 = .ok u := by
+  unfold boundsListOfString at h
+  split at h
+  · simp at h
+  · split at h
+    · simp at h
+    · rename_i l0 hl0
+      split at h
+      · simp at h
+      · exact ⟨l0, hl0, h⟩
+
+/-- … and has no index 0 on either side of any bound -/
+theorem parsed_nonzero (f : List Char) (u : UserBoundsList) (h : boundsListOfString f = .ok u) :
+    ∀ b, BoF.bound b ∈ u.list → b.Nonzero := by
+  obtain ⟨l0, hl0, hfv⟩ := parsed_fromVec f u h
+  intro b hb
+  obtain ⟨b0, h0, h1, h2⟩ := fromVec_sides l0 u hfv b hb
+  obtain ⟨s, hs⟩ := parseBoundsList_parsed f l0 hl0 b0 h0
+  have wf := accepted_wellformed s b0 hs
+  constructor
+  · rw [← h1]
+    cases hl : b0.l with
+    | cont => trivial
+    | some v => intro hv; exact wf.1 (by rw [hl, hv])
+  · rw [← h2]
+    cases hr : b0.r with
+    | cont => trivial
+    | some v => intro hv; exact wf.2.1 (by rw [hr, hv])
+
+theorem parsed_lnz (f : List Char) (u : UserBoundsList) (h : boundsListOfString f = .ok u) :
+    LNZ u.list := LNZ.of_nonzero (parsed_nonzero f u h)
+
+/-! ## the `-c` matcher honours the contract of `find_iter` -/
+
+theorem boundariesFrom_sorted : ∀ (cs : List Bytes) (pos lo : Nat), lo ≤ pos →
+    SortedMatches (pos + cs.flatten.length) lo ((boundariesFrom pos cs).map fun p => (p, p))
+  | [], pos, lo, h => by
+    simp only [boundariesFrom, List.map_cons, List.map_nil, List.flatten_nil, List.length_nil,
+      Nat.add_zero]
+    exact ⟨h, Nat.le_refl _, Nat.le_refl _, trivial⟩
+  | c :: t, pos, lo, h => by
+    simp only [boundariesFrom, List.map_cons, List.flatten_cons, List.length_append]
+    have := boundariesFrom_sorted t (pos + c.length) pos (by omega)
+    rw [Nat.add_assoc] at this
+    exact ⟨h, Nat.le_refl _, by omega, this⟩
+
+theorem charMatches_sorted (line : Bytes) : SortedMatches line.length 0 (charMatches line) := by
+  unfold charMatches
+  cases hcs : utf8Chars line with
+  | none => trivial
+  | some cs =>
+    have := boundariesFrom_sorted cs 0 0 (Nat.le_refl _)
+    rw [utf8Chars_flatten line cs hcs, Nat.zero_add] at this
+    exact this
+
+/-- the `RegexBag` of `-c` (`\b|\B`) reports sorted, in-range (empty) matches on every haystack —
+    also on one that is not UTF-8, where the model reports none -/
+theorem charsBag_ok : charsBag.OK := fun line => ⟨charMatches_sorted line, charMatches_sorted line⟩
+
+/-- the side condition on the delimiter, for the two kinds of `Opt` this task is about -/
+theorem bagOK_of_literal_or_chars (o : Opt) (h : o.regexBag = none ∨ o.regexBag = some charsBag) :
+    ∀ bag, o.regexBag = some bag → bag.OK := by
+  intro bag hb
+  rcases h with h | h
+  · rw [h] at hb; cases hb
+  · rw [h] at hb
+    simp only [Option.some.injEq] at hb
+    subst hb
+    exact charsBag_ok
+
+/-! ## 1. engine by engine -/
+
+/-- **general engine, one record.**  Literal delimiter (any, the empty one included), any of
+    `-g -p -t -s -j -r -m --json`, fields or lines; also `-c`; also any regex that honours the
+    contract of `find_iter`.  Sites: `fields[s]`, `fields[e-1]`, the slice, the `expect` of
+    `fromVec` after `complement`/`unpack`, the `unwrap` of the replacement after a regex compress. -/
+theorem cutStrCore_no_panic (line : Bytes) (opt : Opt) (eol : Bytes)
+    (hbag : ∀ bag, opt.regexBag = some bag → bag.OK)
+    (hnz : ∀ b, BoF.bound b ∈ opt.bounds.list → b.Nonzero) :
+    (cutStrCore line opt eol).1.status ≠ .panic :=
+  (cutStrCore_safe line opt eol hbag (LNZ.of_nonzero hnz)).ne_panic
+
+/-- the instance the task names: literal delimiter -/
+theorem cutStrCore_literal_no_panic (line : Bytes) (opt : Opt) (eol : Bytes)
+    (hre : opt.regexBag = none)
+    (hnz : ∀ b, BoF.bound b ∈ opt.bounds.list → b.Nonzero) :
+    (cutStrCore line opt eol).1.status ≠ .panic :=
+  cutStrCore_no_panic line opt eol (bagOK_of_literal_or_chars opt (Or.inl hre)) hnz
+
+/-- character mode (no UTF-8 hypothesis needed for panic-freedom) -/
+theorem cutStrCore_chars_no_panic (line : Bytes) (opt : Opt) (eol : Bytes)
+    (hre : opt.regexBag = some charsBag)
+    (hnz : ∀ b, BoF.bound b ∈ opt.bounds.list → b.Nonzero) :
+    (cutStrCore line opt eol).1.status ≠ .panic :=
+  cutStrCore_no_panic line opt eol (bagOK_of_literal_or_chars opt (Or.inr hre)) hnz
+
+/-- **general engine, whole input** -/
+theorem readAndCutStr_no_panic (opt : Opt) (input : Bytes)
+    (hbag : ∀ bag, opt.regexBag = some bag → bag.OK)
+    (hnz : ∀ b, BoF.bound b ∈ opt.bounds.list → b.Nonzero) :
+    (readAndCutStr opt input).status ≠ .panic :=
+  (readAndCutStr_safe opt hbag (LNZ.of_nonzero hnz) input).ne_panic
+
+/-- **fast lane**: it is the general engine (C02) -/
+theorem readAndCutFast_safe (o : Opt) (fo : FastOpt) (ho : fastOptOf o = some fo)
+    (l : List BoF) (hfv : fromVec l = .ok o.bounds)
+    (hnz : ∀ b, BoF.bound b ∈ o.bounds.list → b.Nonzero) (input : Bytes) :
+    (readAndCutFast fo input).Safe := by
+  rw [readAndCutFast_eq_readAndCutStr o fo ho l hfv hnz input]
+  have hre : o.regexBag = none := by
+    unfold fastOptOf at ho
+    split at ho
+    · split at ho
+      · simp at ho
+      · rename_i hc
+        simp only [Bool.or_eq_true, not_or, Bool.not_eq_true, Option.isSome_eq_false_iff,
+          Option.isNone_iff_eq_none] at hc
+        exact hc.2
+    · simp at ho
+  exact readAndCutStr_safe o (bagOK_of_literal_or_chars o (Or.inl hre)) (LNZ.of_nonzero hnz) input
+
+theorem readAndCutFast_no_panic (o : Opt) (fo : FastOpt) (ho : fastOptOf o = some fo)
+    (l : List BoF) (hfv : fromVec l = .ok o.bounds)
+    (hnz : ∀ b, BoF.bound b ∈ o.bounds.list → b.Nonzero) (input : Bytes) :
+    (readAndCutFast fo input).status ≠ .panic :=
+  (readAndCutFast_safe o fo ho l hfv hnz input).ne_panic
+
+/-- **byte mode** -/
+theorem readAndCutBytes_no_panic (o : Opt) (data : Bytes)
+    (hnz : ∀ b, BoF.bound b ∈ o.bounds.list → b.Nonzero) :
+    (readAndCutBytes o data).status ≠ .panic :=
+  (readAndCutBytes_safe o (LNZ.of_nonzero hnz) data).ne_panic
+
+/-- **line mode, one line at a time**: no panic site at all, no hypothesis -/
+theorem cutLinesForwardOnly_no_panic (o : Opt) (input : Bytes) :
+    (cutLinesForwardOnly o input).status ≠ .panic :=
+  (cutLinesForwardOnly_safe o input).ne_panic
+
+/-- **line mode** (the buffered path is the general engine on one big record) -/
+theorem readAndCutLines_no_panic (o : Opt) (input : Bytes)
+    (hbag : ∀ bag, o.regexBag = some bag → bag.OK)
+    (hnz : ∀ b, BoF.bound b ∈ o.bounds.list → b.Nonzero) :
+    (readAndCutLines o input).status ≠ .panic :=
+  (readAndCutLines_safe o hbag (LNZ.of_nonzero hnz) input).ne_panic
+
+/-- **`-M`**: whatever `StreamOpt::try_from` accepts, every segmentation of every input -/
+theorem cutBytesStream_no_panic (o : Opt) (so : StreamOpt) (h : streamOptOf o = some so)
+    (segs : List Bytes) : (cutBytesStream so segs).status ≠ .panic :=
+  (cutBytesStream_safe o so h segs).ne_panic
+
+/-! ## 2. put together -/
+
+/-- what `main` dispatches to ends with status 0 or 1, for bounds that come from the parser -/
+theorem dispatch_safe (o : Opt) (f : List Char) (hf : boundsListOfString f = .ok o.bounds)
+    (hbag : ∀ bag, o.regexBag = some bag → bag.OK) (M : Bool) (segs : List Bytes) :
+    ∀ r, dispatch o M segs = some r → r.Safe := by
+  have hnz := parsed_nonzero f o.bounds hf
+  have hl : LNZ o.bounds.list := LNZ.of_nonzero hnz
+  intro r hr
+  unfold dispatch at hr
+  simp only at hr
+  split at hr
+  · cases hso : streamOptOf o with
+    | none => simp [hso] at hr
+    | some so =>
+      simp only [hso, Option.some.injEq] at hr
+      subst hr
+      exact cutBytesStream_safe o so hso segs
+  · split at hr
+    · simp only [Option.some.injEq] at hr
+      subst hr
+      exact readAndCutBytes_safe o hl _
+    · split at hr
+      · simp only [Option.some.injEq] at hr
+        subst hr
+        exact readAndCutLines_safe o hbag hl _
+      · cases hfo : fastOptOf o with
+        | some fo =>
+          simp only [hfo, Option.some.injEq] at hr
+          subst hr
+          obtain ⟨l0, _, hfv⟩ := parsed_fromVec f o.bounds hf
+          exact readAndCutFast_safe o fo hfo l0 hfv hnz _
+        | none =>
+          simp only [hfo, Option.some.injEq] at hr
+          subst hr
+          exact readAndCutStr_safe o hbag hl _
+
+/-- **C12, dispatch.**  Any bounds string the parser accepts, literal delimiter or character mode
+    (any input — valid UTF-8 or not), any option set, with or without `-M`, any segmentation of
+    any input: the engine ends with exit status 0 or 1. -/
+theorem dispatch_no_panic (o : Opt) (f : List Char) (hf : boundsListOfString f = .ok o.bounds)
+    (hre : o.regexBag = none ∨ o.regexBag = some charsBag) (M : Bool) (segs : List Bytes) :
+    ∀ r, dispatch o M segs = some r → r.status = .ok ∨ r.status = .fail :=
+  dispatch_safe o f hf (bagOK_of_literal_or_chars o hre) M segs
+
+/-- **C12, `main`.**  …and so does the process, whatever the writer does (`lim` = the number of
+    bytes the writer accepts before failing, if it ever fails). -/
+theorem mainModel_total (o : Opt) (f : List Char) (hf : boundsListOfString f = .ok o.bounds)
+    (hre : o.regexBag = none ∨ o.regexBag = some charsBag) (M : Bool) (segs : List Bytes)
+    (lim : Option Nat) :
+    (mainModel o M segs lim).status = .ok ∨ (mainModel o M segs lim).status = .fail := by
+  unfold mainModel
+  cases hd : dispatch o M segs with
+  | none => exact Or.inr rfl
+  | some r => exact deliver_safe r lim (dispatch_no_panic o f hf hre M segs r hd)
+
+/-- the same for a regex delimiter, under the contract of `find_iter` (matches sorted,
+    non-overlapping, within the haystack); the regex engine itself is outside the model -/
+theorem mainModel_total_regex (o : Opt) (f : List Char) (hf : boundsListOfString f = .ok o.bounds)
+    (hbag : ∀ bag, o.regexBag = some bag → bag.OK) (M : Bool) (segs : List Bytes)
+    (lim : Option Nat) :
+    (mainModel o M segs lim).status = .ok ∨ (mainModel o M segs lim).status = .fail := by
+  unfold mainModel
+  cases hd : dispatch o M segs with
+  | none => exact Or.inr rfl
+  | some r => exact deliver_safe r lim (dispatch_safe o f hf hbag M segs r hd)
+
+/-- in particular neither a panic nor an endless loop -/
+theorem mainModel_never_panics (o : Opt) (f : List Char) (hf : boundsListOfString f = .ok o.bounds)
+    (hre : o.regexBag = none ∨ o.regexBag = some charsBag) (M : Bool) (segs : List Bytes)
+    (lim : Option Nat) :
+    (mainModel o M segs lim).status ≠ .panic ∧ (mainModel o M segs lim).status ≠ .hang :=
+  ⟨Run.Safe.ne_panic (mainModel_total o f hf hre M segs lim),
+   Run.Safe.ne_hang (mainModel_total o f hf hre M segs lim)⟩
+
+/-! ## 3. time and memory do not grow with the numeric value of an index -/
+
+theorem rangeEnd_le (r : Side) (n : Nat) (e : Int) (h : rangeEnd r n = some e) : e ≤ n := by
+  cases r with
+  | cont => simp only [rangeEnd, Option.some.injEq] at h; omega
+  | some v =>
+    simp only [rangeEnd] at h
+    split at h
+    · simp at h
+    · split at h <;> simp only [Option.some.injEq] at h <;> omega
+
+/-- a resolved range never ends after the last part, whatever the written numbers -/
+theorem tryIntoRange_le (b : UserBounds) (n s e : Nat) (h : b.tryIntoRange n = some (s, e)) :
+    e ≤ n := by
+  unfold UserBounds.tryIntoRange at h
+  split at h
+  · simp at h
+  · split at h
+    · simp at h
+    · rename_i e' he
+      split at h
+      · simp at h
+      · simp only [Option.some.injEq, Prod.mk.injEq] at h
+        have := rangeEnd_le b.r n e' he
+        omega
+
+/-- `unpack` yields at most one bound per existing field: `1:2147483647` on a 3-field record
+    becomes 3 bounds, not two thousand million -/
+theorem unpack_length_le (b : UserBounds) (n : Nat) : (b.unpack n).length ≤ max 1 n := by
+  unfold UserBounds.unpack
+  cases hr : b.tryIntoRange n with
+  | none => simp only [List.length_singleton]; omega
+  | some p =>
+    obtain ⟨s, e⟩ := p
+    have := tryIntoRange_le b n s e hr
+    simp only [List.length_map, List.length_range]
+    omega
+
+theorem unpackBof_length_le (n : Nat) (x : BoF) : (unpackBof n x).length ≤ max 1 n := by
+  cases x with
+  | bound b => simpa [unpackBof] using unpack_length_le b n
+  | filler f => simp only [unpackBof, List.length_singleton]; omega
+
+theorem unpackList_length_le (n : Nat) (l : List BoF) :
+    (l.flatMap (unpackBof n)).length ≤ l.length * max 1 n := by
+  induction l with
+  | nil => simp
+  | cons x t ih =>
+    simp only [List.flatMap_cons, List.length_append, List.length_cons, Nat.succ_mul]
+    have := unpackBof_length_le n x
+    omega
+
+/-- `complement` yields at most two bounds -/
+theorem complement_length_le (b : UserBounds) (n : Nat) (l : List UserBounds)
+    (h : b.complement n = some l) : l.length ≤ 2 := by
+  unfold UserBounds.complement at h
+  simp only [Option.map_eq_some_iff] at h
+  obtain ⟨r, _, rfl⟩ := h
+  obtain ⟨s, e⟩ := r
+  simp only [List.length_map]
+  unfold complementStdRange
+  split <;> split <;> simp
+
+theorem complementBof_length_le (n : Nat) (x : BoF) : (complementBof n x).length ≤ 2 := by
+  cases x with
+  | filler f => simp [complementBof]
+  | bound b =>
+    unfold complementBof
+    cases hc : b.complement n with
+    | none => simp [hc]
+    | some bs => simpa [hc] using complement_length_le b n bs hc
+
+/-- `-f 1: --json` on a record of 3 fields: 3 bounds; `-f 1:2147483647` is out of bounds and stays
+    one bound (its fallback is printed) -/
+example : (({ l := .some 1, r := .cont } : UserBounds).unpack 3).length = 3 := by decide
+example : (({ l := .some 1, r := .some 2147483647 } : UserBounds).unpack 3).length = 1 := by decide
+
+/-! ## 4. loops with fuel never run out of it
+
+(`utf8CharsFuel_fuel` for the UTF-8 segmentation is in `Tuc.Props.C07`; the empty delimiter never
+reaches the loop of `trim`: `trimLiteral` returns first) -/
+
+theorem trimStartFuel_fuel_eq (d : Bytes) (hd : d ≠ []) (n : Nat) :
+    ∀ (m : Nat) (l : Bytes), l.length ≤ n → l.length ≤ m →
+      trimStartFuel d n l = trimStartFuel d m l := by
+  induction n with
+  | zero =>
+    intro m l h _
+    have : l = [] := List.eq_nil_of_length_eq_zero (by omega)
+    subst this
+    cases m with
+    | zero => rfl
+    | succ m =>
+      have : d.isPrefixOf ([] : Bytes) = false := by
+        cases d with
+        | nil => exact absurd rfl hd
+        | cons _ _ => rfl
+      simp [trimStartFuel, this]
+  | succ n ih =>
+    intro m l hn hm
+    cases m with
+    | zero =>
+      have : l = [] := List.eq_nil_of_length_eq_zero (by omega)
+      subst this
+      have : d.isPrefixOf ([] : Bytes) = false := by
+        cases d with
+        | nil => exact absurd rfl hd
+        | cons _ _ => rfl
+      simp [trimStartFuel, this]
+    | succ m =>
+      simp only [trimStartFuel]
+      split
+      · rename_i hp
+        have hpl := (List.isPrefixOf_iff_prefix.mp hp).length_le
+        have hdpos : 0 < d.length := List.length_pos_iff.mpr hd
+        have : (l.drop d.length).length < l.length := by
+          simp only [List.length_drop]; omega
+        exact ih m _ (by omega) (by omega)
+      · rfl
+
+/-- the `while buffer[idx..].starts_with(delimiter)` loop terminates: with a non-empty delimiter
+    any fuel ≥ the length of the buffer gives the same result as exactly that much -/
+theorem trimStartFuel_fuel (d : Bytes) (hd : d ≠ []) (n : Nat) (l : Bytes) (h : l.length ≤ n) :
+    trimStartFuel d n l = trimStartFuel d l.length l :=
+  trimStartFuel_fuel_eq d hd n l.length l h (Nat.le_refl _)
+
+/-! ## the contract of the matcher cannot be dropped -/
+
+/-- a matcher that breaks the contract of `find_iter` (a match past the end) makes the slice panic -/
+example :
+    (cutStrCore [97]
+      { delimiter := [9], regexBag := some ⟨fun _ => [(5, 6)], fun _ => [(5, 6)]⟩,
+        bounds := ⟨[.bound { l := .some 1, r := .some 1, isLast := true }], .some 1⟩ }
+      [10]).1.status = .panic := by decide
 
 end Tuc
